@@ -305,6 +305,30 @@ def _run_labels(case):
                         if oc != "ok" and viols:
                             viols[-1]["key"] += ":text-column"
                         outcomes["labels:" + oc] = outcomes.get("labels:" + oc, 0) + 1
+        # RAGGED tables: an optional trailing column left off some rows, or a trailing comma adding an empty cell to some rows, while the
+        # requested column is complete ("unaffected by other columns"): every subset of the rows, both variants, B first or second
+        for sub in range(1, 2 ** len(col)):
+            for variant in ("short", "extra"):
+                for bpos in (0, 1):
+                    lines = ["B,C,D" if bpos == 0 else "C,B,D"]
+                    for r, x in enumerate(col):
+                        cells = [repr(x), "7"] if bpos == 0 else ["7", repr(x)]
+                        if sub >> r & 1:
+                            cells = cells + ([] if variant == "short" else ["3", ""])
+                        else:
+                            cells = cells + ["3"]
+                        lines.append(",".join(cells))
+                    text = "\n".join(lines) + "\n"
+                    with open(os.path.join(work, "rag.csv"), "w", newline="") as f:
+                        f.write(text)
+                    for mv in (None, -9999):
+                        res = _read(work, "rag.csv", "B", mv, None)
+                        evals += 1
+                        tag = {"file": text, "field": "B", "MissingVal": mv}
+                        oc = _check_read(res, col, mv, None, viols, tag, counters)
+                        if oc != "ok" and viols:
+                            viols[-1]["key"] += ":ragged-rows"
+                        outcomes["ragged:" + oc] = outcomes.get("ragged:" + oc, 0) + 1
     finally:
         import shutil
         shutil.rmtree(work, ignore_errors=True)
